@@ -13,7 +13,8 @@ def arming_rules(ctx, tag, side):
     R.ob(tag + '.arm', (side + ' table insert', 'arms one timer'), len(arms) == 1, 'registering a request arms exactly one deadline timer',
          [g.loc(t) for g, _, t in arms] or [ins.loc(ins.d)])
     other_arms = [(g, bb, t) for g, bb, t in F.all_calls('DelayQueue::insert', 'DelayQueue::insert_at', 'DelayQueue::reset', 'DelayQueue::reset_at')
-                  if not any(g.id == b.id for b in bodies) and (side in g.npath.split('::')[0:1] or ('::' + side + '::') in ('::' + g.npath))]
+                  if (not any(g.id == b.id for b in bodies) or callee_is(t, 'DelayQueue::reset', 'DelayQueue::reset_at'))
+                  and (side in g.npath.split('::')[0:1] or ('::' + side + '::') in ('::' + g.npath))]
     R.ob(tag + '.arm', (side, 'no other site arms or re-arms a deadline timer'), not other_arms,
          'timers are armed only when a request is registered and never re-armed', [g.loc(t) for g, _, t in other_arms] or [ins.loc(ins.d)])
     for g, bb, t in arms:
